@@ -560,13 +560,15 @@ class Machine(object):
             "rule": ("one evaluation = one seeded history on one object family/configuration: a partition of AAD, message "
                      "and XOF output into segments (cut points biased to internal cache/block/rate/chunk sizes, empty "
                      "segments included), a buffer carrier per segment, an output mode per call and optional re-use of "
-                     "the caller's buffer after the call; compared with the one-shot computation on bytes; "
+                     "the caller's buffer after the call; compared with the one-shot computation on bytes; a few cases hash pieces of 2^29 "
+                     "bytes and more from an anonymous zero mapping against hashlib; "
                      "non-trivial = at least 2 segments/calls; distinct = SHA-256 of the canonical case"),
             "state_measure": "distinct (family, call kind, carrier, output mode, segment length mod 16) tuples",
             "components": {"real": ["all of lib/Crypto (Python)", "all C extensions", "ctypes buffer adaptation in _raw_api"],
                            "stub": ["os.urandom (seeded stream)"]},
             "assumptions": ["the library's own one-shot result on bytes is the reference (conformance is C02/C03)",
-                            "non-contiguous or non-byte memoryviews are not generated (not documented)"],
-            "expected_probes": [],
+                            "non-contiguous memoryviews are generated for 4% of the segments: refused (the history ends there) or processed as the "
+                            "bytes they show"],
+            "expected_probes": ["noncontiguous_view_refused", "huge_piece_hashed"],
             "not_reached": ["cffi buffer adaptation (cffi is not installed; only the ctypes branch of _raw_api runs)"],
         }
